@@ -105,6 +105,8 @@ type Family struct {
 	Enc      string
 	Sort     *Sort // Map<KeySort,ValSort>
 	Prefixes map[string]int // prefix func -> number of leading key args it fixes
+	PrefixPos map[string][]int    // prefix func -> key components its parameters fix (matched by parameter name)
+	PrefixBy  map[string][]string // prefix func -> uninterpreted projections of the single key component its parameters fix
 	Decl     *FamilyDecl
 }
 
@@ -122,11 +124,13 @@ type KeyVal struct {
 	Fam     *Family
 	Args    []*Term
 	Partial bool
-	Extra   []Val // bytes appended after a partial key
+	Pos     []int    // partial key: which key components Args fix (nil = the leading ones)
+	By      []string // partial key over derived components: Args[i] is the value of uninterpreted function By[i] of the (single) key component
+	Extra   []Val    // bytes appended after a partial key
 }
 
 func (k *KeyVal) appendBytes(x *Exec, add Val) Val {
-	n := &KeyVal{Fam: k.Fam, Args: k.Args, Partial: k.Partial, Extra: append(append([]Val(nil), k.Extra...), add)}
+	n := &KeyVal{Fam: k.Fam, Args: k.Args, Partial: k.Partial, Pos: k.Pos, By: k.By, Extra: append(append([]Val(nil), k.Extra...), add)}
 	return n
 }
 
@@ -236,7 +240,7 @@ func (x *Exec) asKey(st *State, key Val) (*KeyVal, bool) {
 	case *KeyVal:
 		if k.Partial && len(k.Extra) > 0 {
 			// prefix + appended bytes completing the key: only the single-missing-arg case
-			if len(k.Args)+len(k.Extra) == len(k.Fam.KeySorts) {
+			if k.Pos == nil && k.By == nil && len(k.Args)+len(k.Extra) == len(k.Fam.KeySorts) {
 				args := append([]*Term(nil), k.Args...)
 				for i, e := range k.Extra {
 					want := k.Fam.KeySorts[len(k.Args)+i]
